@@ -636,3 +636,192 @@ pub fn comp_rule(id: &str) -> (&'static str, &'static [&'static str]) {
         _ => ("", &[]),
     }
 }
+
+// ------------------------------------------------------------------------------------------
+// stress (E3) checks
+// ------------------------------------------------------------------------------------------
+
+use crate::stress::{self, Kind, SResult, StressCase};
+
+pub struct StressPart {
+    pub kind: Kind,
+    pub quick: u32,
+    pub thorough: u32,
+    pub async_pct: u32,
+}
+
+pub fn stress_parts(id: &str) -> Vec<StressPart> {
+    let p = |kind, quick, thorough, async_pct| StressPart { kind, quick, thorough, async_pct };
+    match id {
+        "C01" | "C02" | "C06" | "C08" | "C17" => vec![p(Kind::Invariants, 240, 6000, 25)],
+        "C10" => vec![p(Kind::Barrier, 320, 8000, 25), p(Kind::WaitRace, 320, 8000, 25)],
+        "C12" => vec![p(Kind::Close, 400, 10000, 30)],
+        "C20" => vec![p(Kind::Config, 480, 12000, 30)],
+        "C19" => vec![
+            p(Kind::Invariants, 160, 4000, 100),
+            p(Kind::Barrier, 120, 3000, 100),
+            p(Kind::WaitRace, 120, 3000, 100),
+            p(Kind::Close, 160, 4000, 100),
+            p(Kind::Config, 160, 4000, 100),
+        ],
+        _ => vec![],
+    }
+}
+
+#[derive(Clone, Debug, serde::Deserialize)]
+pub struct KnownEntry {
+    pub status: String,
+    pub property: String,
+    #[serde(default)]
+    pub signature: String,
+    #[serde(default)]
+    pub what: String,
+}
+
+pub fn known_findings(prop: &str) -> Vec<KnownEntry> {
+    let path = verif_dir().join("known_findings.json");
+    let text = match std::fs::read_to_string(path) {
+        Ok(t) => t,
+        Err(_) => return vec![],
+    };
+    let v: serde_json::Value = match serde_json::from_str(&text) {
+        Ok(v) => v,
+        Err(_) => return vec![],
+    };
+    v["entries"]
+        .as_array()
+        .map(|a| a.iter().filter_map(|e| serde_json::from_value::<KnownEntry>(e.clone()).ok()).filter(|e| e.status == "known" && e.property == prop).collect())
+        .unwrap_or_default()
+}
+
+pub fn run_stress_part(prop: &str, part: &StressPart, tier: &str, seed: u64, stats: &Stats, known: &[KnownEntry], known_hit: &mut Vec<String>) -> CheckOutcome {
+    let n = if tier_is_thorough(tier) { part.thorough } else { part.quick } as usize;
+    // while a wait-vs-close finding is known, the search leaves closers out of wait races (the
+    // pattern is excluded by construction and probed separately), so that it can continue behind it
+    let exclude_close = known.iter().any(|k| k.signature == "wait_blocked_after_close");
+    let strat = stress::stress_strategy(part.kind, part.async_pct);
+    let mut cases: Vec<StressCase> = sample_values(&strat, n, seed.wrapping_mul(31).wrapping_add(part.kind as u64 + 1));
+    let mut excluded = 0u64;
+    if exclude_close && part.kind == Kind::WaitRace {
+        for c in cases.iter_mut() {
+            let before = c.threads.len();
+            c.threads.retain(|t| !t.iter().any(|o| matches!(o, stress::SOp::Close)));
+            if c.threads.len() != before {
+                excluded += 1;
+            }
+            if c.threads.is_empty() {
+                c.threads.push(vec![stress::SOp::Wait]);
+            }
+        }
+        // the probe: the same generator with closers kept, a fixed number of cases
+        let probe: Vec<StressCase> = sample_values(&strat, n / 4 + 8, seed.wrapping_add(0xC105E)).into_iter().filter(|c| c.threads.iter().flatten().any(|o| matches!(o, stress::SOp::Close))).collect();
+        cases.extend(probe);
+    }
+    if excluded > 0 {
+        *stats.known_hits.lock().entry("cases_with_known_pattern_excluded_by_construction".into()).or_insert(0) += excluded;
+    }
+    let kind_name = format!("{:?}", part.kind);
+    let mut violation: Option<(String, String)> = None;
+    let mut inconclusive: Option<String> = None;
+    let mut timeouts = 0u32;
+    crate::pool::run_cases(&cases, 16, std::time::Duration::from_secs(45), |i, r| {
+        let case = &cases[i];
+        match r.status.as_str() {
+            "ok" => {
+                stats.case(hash_of(case), r.nontrivial, || json!({"engine": "stress", "case": case}));
+                stats.count(&format!("stress:{}:cases", kind_name));
+                stats.count(&format!("stress:exec:{:?}", case.exec));
+                if r.nontrivial {
+                    stats.count(&format!("stress:{}:nontrivial", kind_name));
+                }
+                for c in r.classes.iter() {
+                    stats.count(&format!("stress:{}:{}", kind_name, c));
+                }
+                true
+            }
+            "violation" | "hang" => {
+                stats.case(hash_of(case), true, || json!({"engine": "stress", "case": case}));
+                if !r.props.iter().any(|p| p == prop) {
+                    *stats.other_pred_failures.lock().entry(r.pred.clone()).or_insert(0) += 1;
+                    return true;
+                }
+                if let Some(k) = known.iter().find(|k| k.signature == r.pred) {
+                    *stats.known_hits.lock().entry(k.signature.clone()).or_insert(0) += 1;
+                    let line = format!("KNOWN-FINDING: property={} {} ({})", prop, k.signature, k.what);
+                    if !known_hit.contains(&line) {
+                        known_hit.push(line);
+                    }
+                    return true;
+                }
+                if violation.is_none() {
+                    let msg = format!("[{}] {}", r.pred, r.msg);
+                    let body = json!({"case": case, "observed": {"status": r.status, "pred": r.pred, "msg": r.msg, "history": r.history}});
+                    let path = write_replay(prop, "stress", &body, &msg);
+                    violation = Some((msg, path));
+                }
+                false
+            }
+            "busy" | "timeout" | "crash" => {
+                timeouts += 1;
+                let body = json!({"case": case, "observed": {"status": r.status, "pred": r.pred, "msg": r.msg, "history": r.history}});
+                let _ = write_replay("inconclusive", "stress", &body, &r.msg);
+                if timeouts > 3 && inconclusive.is_none() {
+                    inconclusive = Some(format!("{} cases ended without a verdict, last: {} {}", timeouts, r.status, r.msg));
+                    return false;
+                }
+                true
+            }
+            _ => {
+                if inconclusive.is_none() {
+                    inconclusive = Some(format!("harness problem: {} {}", r.status, r.msg));
+                }
+                false
+            }
+        }
+    });
+    if timeouts > 0 {
+        *stats.classes.lock().entry("stress:cases_without_verdict".into()).or_insert(0) += timeouts as u64;
+    }
+    CheckOutcome { violation, inconclusive }
+}
+
+/// replay of a stress case: the OS schedule is not reproducible, so the scripts are re-run many times
+pub fn replay_stress(prop: &str, body: &serde_json::Value) -> (Vec<String>, usize) {
+    let case: StressCase = match serde_json::from_value(body["case"].clone()) {
+        Ok(c) => c,
+        Err(e) => return (vec![format!("bad stress case: {}", e)], 0),
+    };
+    let runs = 200;
+    let res = crate::pool::rerun(&case, runs, 16);
+    let fails: Vec<String> = res
+        .iter()
+        .filter(|r| (r.status == "violation" || r.status == "hang") && r.props.iter().any(|p| p == prop))
+        .map(|r| format!("[{}] {}", r.pred, r.msg))
+        .collect();
+    (fails, runs)
+}
+
+pub fn stress_rule(id: &str) -> (&'static str, &'static [&'static str]) {
+    match id {
+        "C10" => (
+            "real threads, real workers, in worker processes: (barrier) 1-4 threads on owned keys issue batches of inserts/removes (each key at most once per batch) then wait(); after Ok and with no overlapping clear() each key must read as the thread's last operation left it and be charged accordingly; (termination) wait() raced with clear(), close() and 1-3-slot buffers must return; a hang is reported only with state evidence (blocked call, worker counters, CPU flat). non-trivial = barrier case, or a wait() overlapping clear()/close(); distinct by case hash",
+            &["the OS schedule is sampled, not enumerated; seeded perturbation at the yield points", "a timeout without state evidence is inconclusive, never a violation"],
+        ),
+        "C12" => (
+            "real threads in worker processes: pre-close history, 1-4 concurrent closers, 0-3 threads racing try_* operations and lookups, or every handle dropped without close; afterwards every API call is checked to be inert and non-blocking, and worker guards / OS thread count / spawned-task completion must return to the baseline; non-trivial = >=2 closers, or >=1 racing thread, or drop-only; distinct by case hash",
+            &["wait() is not in the racing set (C10 owns that race)", "Err results of calls racing a close are legal"],
+        ),
+        "C20" => (
+            "builder parameters num_counters 0..70 + {100,1000,4096,12345}, max_cost {neg,0,1,2,10,100,1e6,i64::MAX}, buffer_size {0,1,2,3,64,32768}, buffer_items {0,1,2,64}, metrics, ignore_internal_cost, cleanup {1,10,500,2000}ms; workload of inserts, lookups, removes, TTLs under a process-wide virtual clock with the real ticker; zeros must be rejected with the right error; otherwise no panic anywhere, workers alive, wait() Ok, a later insert processed; non-trivial = num_counters <8 or not a power of two, buffer_size <=2, buffer_items <=1 or max_cost <=1; distinct by case hash",
+            &["configurations whose tables would not fit in memory are not generated"],
+        ),
+        "C19" => (
+            "async flavour on four executors (tokio multi-thread, tokio current-thread, async-std, thread-per-task) through the same stress kinds as the sync cache (invariants, wait barrier/termination, close, configurations), plus the lock-step differential: the same case and schedule on parked Cache and AsyncCache must produce identical observations step by step",
+            &["executors present in the cargo cache only"],
+        ),
+        _ => (
+            "stress part: 2-6 real client threads with generated scripts on shared keys against a cache with real workers (tight capacity, TTLs under a global virtual clock, 5ms real ticker); inline: a lookup returns only a value written under that key and not yet handed to a callback before the lookup began; at quiescence: charged total == sum of charges, resident keys == charged keys (if no call returned Err), callback conservation, metrics conservation",
+            &["the OS schedule is sampled, not enumerated"],
+        ),
+    }
+}
